@@ -38,7 +38,7 @@ def fmt_sample(r):
     }
 
 
-def run_k_property(mod, tier, only=None):
+def run_k_property(mod, tier, only=None, write=True):
     pid = mod.ID
     t0 = time.time()
     known = load_known()
@@ -57,7 +57,7 @@ def run_k_property(mod, tier, only=None):
     if not ok:
         cov = {"evaluations": 0, "distinct_nontrivial": 0, "rule": "build failed", "samples": [], "explanation": "harness crate failed to compile against /repo"}
         write_evidence(pid, tier, cov, [], time.time() - t0, 0)
-        return 2
+        return 2 if write else {"rc": 2, "cov": cov, "assumptions": [], "violations": 0, "t0": t0}
     log("   built harness crate from /repo working tree in %.1fs" % bt)
     results = kengine.run_all(hs, jobs=int(os.environ.get("VERIF_JOBS", "12")))
 
@@ -144,6 +144,8 @@ def run_k_property(mod, tier, only=None):
         "Kani/CBMC model of Rust semantics and the compiled std (dev profile: overflow checks on)",
         "trusted: reference models in kani/src/refs, the harness code, Kani 0.68 / CBMC 6.11 / cadical",
     ]
+    if not write:
+        return {"rc": rc, "cov": cov, "assumptions": assumptions, "violations": len(violations), "t0": t0}
     write_evidence(pid, tier, cov, assumptions, time.time() - t0, len(violations))
     log("== %s: %d/%d obligations discharged, %d violation(s), %d known finding(s), %d undischarged, %d machinery error(s); %.0fs wall, solver %.0fs" % (
         pid, len(passed), len(results), len(violations), len(known_hits), len(undischarged), len(machinery), time.time() - t0, cov["solver_time_s"]))
@@ -191,6 +193,9 @@ def main():
     mod = importlib.import_module("vlib.props." + name)
     if getattr(mod, "ENGINE", "K") == "K":
         return run_k_property(mod, a.tier, a.only)
+    if getattr(mod, "ENGINE", "K") == "KM":
+        return mod.run(a.tier, lambda: run_k_property(mod, a.tier, a.only, write=False))
+    all_lists(load_props())
     return mod.run(a.tier)
 
 
